@@ -1,8 +1,11 @@
 package main
 
 import (
+	"go/constant"
 	"go/token"
+	"go/types"
 	"sort"
+	"strconv"
 	"strings"
 
 	"golang.org/x/tools/go/ssa"
@@ -12,7 +15,7 @@ func init() {
 	register(&propCheck{
 		id:    "C06",
 		level: "other",
-		explanation: "Agreement of the filesystem API with a reference model over programs of calls is behavioural and is not decidable statically. Decided here are three structural clauses of the statement's second sentence: (Z1) 'leaves no file handle open — on success, failure or cancellation': for every call in package filesystem that yields a file handle (GenericOpen, OpenFile, CreateFile, TempFile, the backend's Open/Create/OpenFile, zip.File.Open, the archive-reader helpers that return the opened file), on the side where a handle exists either the handle is handed to the caller (returned, stored in a returned structure) or every path to an exit passes a Close on it — explicit, or deferred on that path; (Z2) 'a copy never changes its source': in the copy call graph every mutating filesystem method is invoked on the destination filesystem parameter, never on the source one, and the source handle is only read; (Z3) a move removes its source only on the nil side of the copy/rename it falls back to. Decided on SSA; nothing is executed. Not decided: values returned, error kinds, resulting trees, termination, behaviour when source and destination overlap on the same filesystem.",
+		explanation: "Agreement of the filesystem API with a reference model over programs of calls is behavioural and is not decidable statically. Decided here are three structural clauses of the statement's second sentence: (Z1) 'leaves no file handle open — on success, failure or cancellation': for every call in package filesystem that yields a file handle (GenericOpen, OpenFile, CreateFile, TempFile, the backend's Open/Create/OpenFile, zip.File.Open, the archive-reader helpers that return the opened file), on the side where a handle exists either the handle is handed to the caller (returned, stored in a returned structure) or every path to an exit passes a Close on it — explicit, or deferred on that path; (Z2) 'a copy never changes its source': in the copy call graph every mutating filesystem method is invoked on the destination filesystem parameter, never on the source one, and the source handle is only read; (Z3) a move removes its source only on the nil side of the copy/rename it falls back to. Decided on SSA; nothing is executed. (Z4) 'the resulting tree matches the model' needs every write to replace: a handle opened for writing with O_CREATE carries O_TRUNC (or O_APPEND/O_EXCL). Not decided: values returned, error kinds, resulting trees, termination, behaviour when source and destination overlap on the same filesystem.",
 		run:   runC06,
 		thoroughConfigs: []string{"darwin/amd64", "windows/amd64"},
 		assumptions: []string{
@@ -43,6 +46,71 @@ func runC06(c *Ctx) {
 	}
 	c.c06CopySource()
 	c.c06MoveOrder()
+	c.c06WritersReplace()
+}
+
+// c06WritersReplace: "a write to a path replaces its content" in the reference model. A handle opened for
+// writing with O_CREATE but without O_TRUNC, O_APPEND or O_EXCL writes from offset 0 into whatever is already
+// there and leaves the old tail behind whenever the new content is shorter.
+func (c *Ctx) c06WritersReplace() {
+	c.rule("Z4", "a handle opened in package filesystem for writing with O_CREATE also carries O_TRUNC (or O_APPEND / O_EXCL): a write replaces the content, it does not overlay it", 2)
+	osp := c.Prog.ImportedPackage("os")
+	if osp == nil {
+		c.fatalf("package os not loaded")
+	}
+	flag := func(n string) int64 {
+		k, _ := osp.Pkg.Scope().Lookup(n).(*types.Const)
+		if k == nil {
+			c.fatalf("os.%s not found", n)
+		}
+		v, _ := constant.Int64Val(k.Val())
+		return v
+	}
+	oW, oRW, oC, oT, oA, oE := flag("O_WRONLY"), flag("O_RDWR"), flag("O_CREATE"), flag("O_TRUNC"), flag("O_APPEND"), flag("O_EXCL")
+	for _, f := range c.srcFuncs(fsPkgRel) {
+		if strings.HasSuffix(c.Fset.Position(f.Pos()).Filename, "testing.go") {
+			continue
+		}
+		n := 0
+		allInstrs(f, func(in ssa.Instruction) {
+			cl, ok := in.(*ssa.Call)
+			if !ok {
+				return
+			}
+			name := ""
+			if cl.Call.IsInvoke() {
+				name = cl.Call.Method.Name()
+			} else if g := staticCallee(&cl.Call); g != nil {
+				name = g.Name()
+			}
+			if name != "OpenFile" {
+				return
+			}
+			args := cl.Call.Args
+			if !cl.Call.IsInvoke() && cl.Call.Signature().Recv() != nil {
+				args = args[1:]
+			}
+			if len(args) != 3 {
+				return
+			}
+			fl, isConst := constInt(args[1])
+			if !isConst {
+				return // a forwarder: the flags are its caller's
+			}
+			if fl&oC == 0 || fl&(oW|oRW) == 0 {
+				return
+			}
+			n++
+			key := fname(outermost(f)) + "/open-for-replace"
+			if n > 1 {
+				key += "#" + strconv.Itoa(n)
+			}
+			c.FuncsSeen[fname(outermost(f))] = true
+			c.check(fl&(oT|oA|oE) != 0, "Z4", key, c.pos(cl.Pos()),
+				"opened with O_CREATE and O_TRUNC/O_APPEND/O_EXCL",
+				"opened for writing with O_CREATE but without O_TRUNC (nor O_APPEND/O_EXCL): when the path already holds longer content, the write starts at offset 0 and the old tail stays — the content read back is not the content written")
+		})
+	}
 }
 
 func openerCall(in ssa.Instruction) (cl *ssa.Call, idx int, ok bool) {
